@@ -187,6 +187,7 @@ def monitor_c06(ctx, scn, tv):
         elif ev["e"] == "F":
             finish_idx[ev["o"]] = (i, ev["status"])
     ncmds = len(start_idx)
+    known_wanted = {}
     for i, ev in enumerate(tv.events):
         e = ev["e"]
         if e == "TOK":
@@ -251,10 +252,20 @@ def monitor_c06(ctx, scn, tv):
                 # ninja asked to be woken for a token and one is free: this wait returns immediately in the
                 # real runner; not an idle wait
                 continue
+            # what ninja can know to be wanted now: dyndep files that are (re)generated in this build and have
+            # not finished yet have not been loaded
+            unloaded = frozenset(o2 for s2 in g.sc["stmts"] if s2["kind"] == "scan" for o2 in s2["outs"]
+                                 if o2 in start_idx and (finish_idx.get(o2) is None or finish_idx[o2][0] > i))
+            if unloaded not in known_wanted:
+                known_wanted[unloaded] = g.closure(tv.targets, unloaded=unloaded) if unloaded else None
+            kw = known_wanted[unloaded]
             for o, si in start_idx.items():
                 if si < i:
                     continue
                 sid = tv.sid_of[o]
+                if kw is not None and sid not in kw:
+                    ctx.count("c06_not_yet_known_wanted")
+                    continue
                 ok = True
                 # every transitive prerequisite that runs in this build must have finished: a clean
                 # intermediate statement is not "ready" before its own (order-only) prerequisites are
@@ -344,6 +355,13 @@ def monitor_c05(ctx, scn, tv, recs_before_logs):
     if exp is not None and failures < k and res.get("stage") == "build":
         blocked = {sid for sid in exp if tv.ancestors(sid) & failed}
         must = exp - blocked
+        # a dyndep file whose producer failed (or could not run) is never loaded: statements ninja could only
+        # have learnt about from it are not demanded
+        unloaded = {o for sid in (failed | blocked) if sid in g.by_id and g.by_id[sid]["kind"] == "scan"
+                    for o in g.by_id[sid]["outs"]}
+        if unloaded:
+            must &= g.closure(tv.targets, unloaded=unloaded)
+            ctx.count("c05_runs_with_unloaded_dyndep")
         missing = must - set(started)
         # restat pruning may legitimately remove statements downstream of a kept output: recompute is in C03;
         # here only statements with no failed ancestor and no restat ancestor that ran are demanded
